@@ -34,6 +34,7 @@ package main
 
 import (
 	"fmt"
+	"math"
 	"math/rand"
 	"sort"
 	"strings"
@@ -1058,6 +1059,33 @@ var valFamilies = [][]*pb.TypedValue{
 	{gen.LL(gen.LL(gen.S("a"))), gen.LL(gen.LL(gen.S("a"), gen.S("b"))), gen.LL(gen.S("a"))},
 }
 
+func dec(digits int64, precision uint32) *pb.TypedValue {
+	return &pb.TypedValue{Value: &pb.TypedValue_DecimalVal{DecimalVal: &pb.Decimal64{Digits: digits, Precision: precision}}}
+}
+
+// numFamilies stress numeric comparison: members of one family differ only
+// beyond float32 / float64 precision, in the last bit, by 1 near 2^53 / 2^63,
+// in the arm (int vs uint, float vs double), or are the same number in another
+// Decimal64 encoding. The value of a leaf is what a consumer reads, i.e. its
+// serialisation: every step between two distinct members is a change that
+// must be fed (value.Equal on the repository treats none of them as equal).
+// Negative zero and NaN are left out: 0 == -0 and NaN != NaN are matters of
+// float semantics the statement does not settle.
+var numFamilies = [][]*pb.TypedValue{
+	{dec(123456789, 3), dec(123456790, 3), dec(123456791, 3), dec(123456789, 3)},
+	{dec(12345678, 2), dec(12345679, 2), dec(12345680, 2)},
+	{dec(123456789012345678, 6), dec(123456789012345679, 6), dec(123456789012345778, 6)},
+	{dec(150, 2), dec(15, 1), dec(1500, 3), dec(15, 1)},
+	{dec(100000000, 8), dec(1, 0), dec(100000001, 8)},
+	{gen.F(1), gen.F(math.Nextafter32(1, 2)), gen.F(math.Nextafter32(1, 0)), gen.F(1)},
+	{gen.D(1), gen.D(math.Nextafter(1, 2)), gen.D(0.1 + 0.2), gen.D(0.3), gen.D(1)},
+	{gen.D(16777216), gen.D(16777217), gen.F(16777216), gen.D(1 << 53), gen.D(1<<53 + 2)},
+	{gen.I(1 << 53), gen.I(1<<53 + 1), gen.I(1<<53 - 1), gen.U(1 << 53), gen.U(1<<53 + 1)},
+	{gen.I(math.MaxInt64), gen.I(math.MaxInt64 - 1), gen.U(math.MaxInt64), gen.U(1 << 63), gen.U(1<<63 + 1)},
+	{gen.U(math.MaxUint64), gen.U(math.MaxUint64 - 1), gen.I(-1), gen.I(math.MinInt64), gen.I(math.MinInt64 + 1)},
+	{gen.F(1.5), gen.D(1.5), dec(15, 1), gen.I(1), gen.U(1)},
+}
+
 func (w *world) randEl() el {
 	switch x := w.rng.Intn(10); {
 	case x < 7:
@@ -1131,8 +1159,12 @@ func newWorld(rng *rand.Rand, c cfg, st stats) *world {
 	for i := 0; i < nv; i++ {
 		w.vals = append(w.vals, allVals[rng.Intn(len(allVals))])
 	}
-	if rng.Intn(3) == 0 {
+	if x := rng.Intn(6); x < 3 {
 		fam := valFamilies[rng.Intn(len(valFamilies))]
+		if x > 0 {
+			fam = numFamilies[rng.Intn(len(numFamilies))]
+			w.st["gen_worlds_with_numeric_near_equal_family"]++
+		}
 		w.vals = w.vals[:1]
 		for _, i := range rng.Perm(len(fam))[:2+rng.Intn(len(fam)-1)] {
 			w.vals = append(w.vals, fam[i])
